@@ -20,7 +20,9 @@ RULE = ('live bot (Owner, Misc, Config, User, Admin, Channel loaded; world.testi
         'capability; in addition every capability that appears in an account after a command is submitted, with the REAL before-state and the '
         'recorded lookups, to the extracted decidable form grantb of the grant relation of C02_grow_only_entitled (C02_grant_decidable), '
         'and must be allowed by it (channel-qualified arguments such as #d,op for callers holding op in #c only are generated and in the '
-        'corpus).  non-trivial = history with at least one state change')
+        'corpus).  No speaking actor (none of whom knows the owner\'s password) ever becomes recognised by an owner account '
+        '(starting databases include accounts without password / with the empty password); names and capabilities with the str.splitlines '
+        'boundaries \\x0b \\x0c \\x1c-\\x1e \\x85 U+2028 U+2029 are generated.  non-trivial = history with at least one state change')
 TRUSTED = ['users.getUserId(x) (recognition of the sender and resolution of names, C04) is an INPUT of the model: the first answer recorded '
            'for each string during the command is fed to the model, and the theorems hold for every answer stream (names are included because '
            '_nameCache goes stale: after `user changename` the old name keeps resolving until a reload); histories are cut for the '
@@ -174,7 +176,8 @@ def reset(B, init):
     for name, pw, mask, caps in init['accounts']:
         u = d.newUser()
         u.name = name
-        u.setPassword(pw)
+        if pw is not None:              # None: an account made without password (API, hand-written users.conf)
+            u.setPassword(pw)
         u.addHostmask(mask)
         for c in caps:
             u.addCapability(c)
@@ -197,7 +200,7 @@ def enc_pw(pw):
 def init_wire(init):
     users = []
     for i, (name, pw, mask, caps) in enumerate(init['accounts'], 1):
-        users.append([[[i], name, False, False, True, enc_pw(pw), sorted(caps), [mask] + init.get('extra', {}).get(name, []), [], []], []])
+        users.append([[[i], name, False, False, True, ('' if pw is None else enc_pw(pw)), sorted(caps), [mask] + init.get('extra', {}).get(name, []), [], []], []])
     return [users, len(init['accounts']), [], [], []]
 
 
@@ -265,6 +268,18 @@ def recognisers(B, prefix):
     return out
 
 
+def actor_owners(B):
+    """the speaking actors that some owner account recognises (read-only: no lookup, no cache)"""
+    ircdb = B['ircdb']
+    out = set()
+    for a, p in ACTORS.items():
+        for i in recognisers(B, p):
+            u = ircdb.users.users[i]
+            if any(str(c) == 'owner' for c in u.capabilities) and not u.ignore:     # (UserCapabilitySet.__contains__('owner') is always True)
+                out.add(a)
+    return out
+
+
 # ---------------------------------------------------------------------------
 # running one history on the implementation, with the direct oracle
 def quote(a):
@@ -281,6 +296,8 @@ def quote(a):
             out.append('\\r')
         elif ch == '\t':
             out.append('\\t')
+        elif o > 255:
+            out.append('\\u%04x' % o)
         elif o < 32 or o == 127 or o >= 128:
             out.append('\\x%02x' % o)
         else:
@@ -313,6 +330,7 @@ def run_real(B, inp, want_trace=True):
     reset(B, inp['init'])
     recs, fails = [], []
     before = dump(B)
+    own_before = actor_owners(B)
     for idx, st in enumerate(inp['steps']):
         pre_wire = None
         del B['calls'][:]
@@ -350,6 +368,11 @@ def run_real(B, inp, want_trace=True):
         if any(len(recognisers(B, p)) > 1 for p in ACTORS.values()):
             unstable = True
         # ---- direct oracle (property text on the implementation)
+        own_after = actor_owners(B)
+        for a in sorted(own_after - own_before):
+            fails.append((idx, 'takeover: after %r the sender %s (%s), who was not an owner, is recognised as an owner account' % (
+                st.get('text') or st.get('op'), a, ACTORS[a])))
+        own_before = own_after
         ob, oa = owners(before), owners(after)
         if not set(oa) <= set(ob):
             what = 'reload' if st.get('op') == 'reload' else ('flush' if st.get('op') else 'command')
@@ -401,11 +424,15 @@ def wire_ops(inp, recs):
 # generators
 NAMES = ['plain', 'adm', 'boss', 'PLAIN', 'x', 'y', 'zed', 'x\n  capability owner', 'y\r  capability owner', 'w\n  capability admin',
          ' ', ' lead', 'a b', 'tab\tbed', 'q\n  ignore True', 'r\n  hostmask *!*@*', 'n\n  secure True', 'anon', 'foo!bar@baz', '#c', '$x',
-         '\x1fz', 'e\xa0f', 'K\n\nuser 99\n  name inj\n  capability owner', 'p\n  password h|1.', 'all', '']
+         '\x1fz', 'e\xa0f', 'K\n\nuser 99\n  name inj\n  capability owner', 'p\n  password h|1.', 'all', '',
+         # the line boundaries of str.splitlines() that a text-mode file iteration does NOT honour (User._checkName allows them inside)
+         'x\x0c  capability owner', 'v\x0b  capability owner', 's\x1c  capability owner', 't\x1d  capability admin', 'r\x1e  capability owner',
+         'y\x85  capability owner', 'l\u2028  capability owner', 'm\u2029  capability owner', 'i\x0c  ignore True', 'h\x85\x0cuser 98']
+OWNER_PW = 'Zq9-never-typed'      # the owner's password is not known to the actors: an actor who types it IS the owner
 PWS = ['ppw', 'apw', 'bpw', 'pw', 'n w', 'p\nq', 'x|y', '']
 CAPS = ['foo', 'bar', 'admin', 'owner', 'OWNER', 'Owner', ' owner', '\towner', 'owner ', '-owner', ' -owner', 'trusted', '-trusted', '-foo',
         '#c,op', '#c,foo', '#C,OP', '#c,owner', 'user.register', '-user.register', '-user', '-register', '-admin', '-add', 'bar baz', '',
-        'own\ner', 'foo\n  capability owner', '-admin.capability', '{x', '[X', '\xa0owner', '#d,op', '-#c,op', '#c,-op']
+        'own\ner', 'foo\n  capability owner', 'foo\x0c  capability owner', 'bar\u2028  capability owner', '-admin.capability', '{x', '[X', '\xa0owner', '#d,op', '-#c,op', '#c,-op']
 CHANS = ['#c', '#C', '#d', '&e', 'c', '#c,d', '#']
 CCAPS = ['op', 'foo', 'voice', '-op', ' op', 'owner', 'x y', '', 'OP', '-foo', 'halfop',
          '#d,op', '#d,x', '#c,#d,op', '-#d,op', '#D,OP', '#d,-op', '#c,op', '#C,Voice', '&e,op', '#d,op #d,voice']   # channel-qualified: another channel's capability
@@ -415,11 +442,13 @@ BOOLS = ['True', 'False', 'on', 'off', ' 1 ', 'maybe', 'ENABLE', '0']
 
 
 def gen_init(rng):
-    acc = [['boss', 'bpw', OWNER_MASK, ['owner']],
+    acc = [['boss', OWNER_PW, OWNER_MASK, ['owner']],
            ['adm', 'apw', ACTORS['adm'], ['admin'] + (['#c,op'] if rng.random() < 0.5 else [])],
            ['plain', 'ppw', ACTORS['plain'], (['#c,op'] if rng.random() < 0.3 else (['#d,op'] if rng.random() < 0.3 else []))]]
     if rng.random() < 0.15:
         acc[2][3] = acc[2][3] + ['-user.register']
+    if rng.random() < 0.15:            # an account without password / with the empty password (supybot-adduser lets one press Enter)
+        acc.append(['root', rng.choice([None, '']), 'root!r@host.root', rng.choice([['owner'], ['admin'], []])])
     init = {'accounts': acc}
     if rng.random() < 0.2:
         init['extra'] = rng.choice([{'plain': ['q!q@over.lap'], 'boss': ['*!*@over.lap']},
@@ -437,11 +466,11 @@ def gen_step(rng, hostile):
     actor = rng.choice(['anon', 'plain', 'adm', 'adm'] * 4 + ['odd'])
     ch = rng.choice
 
-    PW_OF = {'plain': 'ppw', 'adm': 'apw', 'boss': 'bpw', 'PLAIN': 'ppw'}
+    PW_OF = {'plain': 'ppw', 'adm': 'apw', 'PLAIN': 'ppw'}
     last = [None]
 
     def name():
-        n = ch(NAMES) if rng.random() < (0.5 if hostile else 0.2) else ch(['plain', 'plain', 'adm', 'boss', 'x', 'y', 'zed', 'anon'])
+        n = ch(NAMES) if rng.random() < (0.5 if hostile else 0.2) else ch(['plain', 'plain', 'adm', 'boss', 'x', 'y', 'zed', 'anon', 'root'])
         last[0] = n
         return n
 
@@ -509,14 +538,26 @@ def cmdstep(a, cmd, args):
     return {'a': a, 'cmd': cmd, 'args': args, 'text': render(cmd, args, [True] * len(args))}
 
 
-INIT0 = {'accounts': [['boss', 'bpw', OWNER_MASK, ['owner']], ['adm', 'apw', ACTORS['adm'], ['admin', '#c,op']],
+INIT0 = {'accounts': [['boss', OWNER_PW, OWNER_MASK, ['owner']], ['adm', 'apw', ACTORS['adm'], ['admin', '#c,op']],
                       ['plain', 'ppw', ACTORS['plain'], []]]}
 W_F1 = {'init': INIT0, 'steps': [cmdstep('anon', 'user register', ['x\n  capability owner', 'pw']), {'op': 'reload'}]}
 W_F43 = {'init': INIT0, 'steps': [cmdstep('adm', 'admin capability add', ['plain', ' owner']), {'op': 'reload'}]}
+W_LINESEP = {'init': INIT0, 'steps': [cmdstep('anon', 'user register', ['x\x0c  capability owner', 'pw']), {'op': 'reload'},
+                                      cmdstep('plain', 'user changename', ['plain', 'l\u2028  capability owner']), {'op': 'reload'},
+                                      cmdstep('anon', 'user changename', ['x\x0c  capability owner', 'y\x85  capability owner', 'pw']), {'op': 'reload'},
+                                      cmdstep('adm', 'user register', ['v\x0b  capability owner', 'pw']), cmdstep('adm', 'user changename', ['adm', 's\x1c  capability owner']),
+                                      cmdstep('adm', 'admin capability add', ['plain', 'foo\x0c  capability owner']), {'op': 'reload'}]}
+INIT_NOPW = {'accounts': INIT0['accounts'] + [['root', None, 'root!r@host.root', ['owner']]]}
+INIT_EMPTYPW = {'accounts': INIT0['accounts'] + [['root', '', 'root!r@host.root', ['owner']]]}
+W_F44 = {'init': INIT_NOPW, 'steps': [{'op': 'reload'}, cmdstep('anon', 'user hostmask add', ['root'])]}
+W_F44B = {'init': INIT_EMPTYPW, 'steps': [cmdstep('anon', 'user hostmask add', ['root'])]}
 W_XCHAN = {'init': INIT0, 'steps': [cmdstep('adm', 'channel capability add', ['#c', 'plain', '#d,op'])]}
 INIT_OVER = dict(INIT0, extra={'plain': ['q!q@over.lap'], 'boss': ['*!*@over.lap']})
 CORPUS = [
-    W_F1, W_F43, W_XCHAN,
+    W_F44, W_F44B, W_F1, W_F43, W_XCHAN, W_LINESEP,
+    {'init': INIT_NOPW, 'steps': [cmdstep('anon', 'user hostmask add', ['root']), cmdstep('anon', 'user changename', ['root', 'mine']), {'op': 'reload'},
+                                  cmdstep('anon', 'user changename', ['root', 'mine']), cmdstep('plain', 'user unregister', ['mine', '']),
+                                  cmdstep('plain', 'user hostmask remove', ['mine', 'all']), cmdstep('plain', 'user identify', ['mine', ''])]},
     {'init': INIT_OVER, 'steps': [cmdstep('plain', 'user changename', ['plain', 'neo']), cmdstep('anon', 'user identify', ['plain', 'ppw']),
                                   cmdstep('plain', 'user hostmask remove', ['plain', 'q!q@over.lap']), cmdstep('plain', 'user hostmask add', ['plain', 'a!b@c']),
                                   cmdstep('plain', 'user hostmask add', ['plain', 'plain!p@host.plain']), cmdstep('plain', 'user unidentify', []),
